@@ -78,7 +78,25 @@ pub struct LastPicture {
     pub ptype: String,
     pub quant: u8,
     pub header_debug: String,
+    /// raw PictureOption bits of the header
+    pub options_bits: u32,
     pub format_dims: Option<(u16, u16)>,
+}
+
+/// Name of a picture type, by matching on the enum (independent of its Debug rendering).
+pub fn picture_type_name(t: &h263_rs::PictureTypeCode) -> String {
+    use h263_rs::PictureTypeCode as T;
+    match t {
+        T::IFrame => "IFrame".into(),
+        T::PFrame => "PFrame".into(),
+        T::PbFrame => "PbFrame".into(),
+        T::ImprovedPbFrame => "ImprovedPbFrame".into(),
+        T::BFrame => "BFrame".into(),
+        T::EiFrame => "EiFrame".into(),
+        T::EpFrame => "EpFrame".into(),
+        T::Reserved(r) => format!("Reserved({})", r),
+        T::DisposablePFrame => "DisposablePFrame".into(),
+    }
 }
 
 pub fn last_picture(state: &H263State) -> Option<LastPicture> {
@@ -99,7 +117,8 @@ pub fn last_picture(state: &H263State) -> Option<LastPicture> {
         y_len: y.len(),
         c_len: (cb.len(), cr.len()),
         tr: hdr.temporal_reference,
-        ptype: format!("{:?}", hdr.picture_type),
+        ptype: picture_type_name(&hdr.picture_type),
+        options_bits: hdr.options.bits(),
         quant: hdr.quantizer,
         header_debug: format!("{:?}", hdr),
         format_dims: dims,
